@@ -265,7 +265,15 @@ class Stacker(Transformer):
         if has_only_one_sample_dim and sample_name in X.dims:
             X = X.rename({sample_name: self.dims_mapping[sample_name][0]})
 
-        ds: DataSet = X.to_unstacked_dataset(feature_name, "variable").unstack()
+        ds: DataSet = X.to_unstacked_dataset(feature_name, "variable")
+        # Only unstack what the stacker has stacked; a MultiIndex of the user's own
+        # (e.g. in user-provided scores) must stay as it is
+        stacked_dims = [
+            d
+            for d in (feature_name, sample_name)
+            if d in ds.dims and isinstance(ds.indexes.get(d), pd.MultiIndex)
+        ]
+        ds = ds.unstack(stacked_dims)
         ds = self._reorder_dims(ds)
         return ds
 
